@@ -46,12 +46,18 @@ class ExecutionContext:
             return self.__CreateStructureInstance(varType)
         elif varType.IsArray():
             assert isinstance(varType, LinearIR.ArrayType)
-            result = [
-                self.__CreateInstance(varType.ElementType)
-            ] * varType.Size[0]
-            for dimSize in varType.Size[1:]:
-                result = [result] * dimSize
-            return result
+
+            # Every element is an instance of its own, and the first size is
+            # the outermost dimension (T[a][b] is indexed by [< a][< b])
+            def CreateArray(sizes):
+                if len(sizes) == 1:
+                    return [
+                        self.__CreateInstance(varType.ElementType)
+                        for _ in range(sizes[0])
+                    ]
+                return [CreateArray(sizes[1:]) for _ in range(sizes[0])]
+
+            return CreateArray(varType.Size)
 
     def __CreatePrimitiveInstance(self, primitiveType: LinearIR.Type):
         match primitiveType.Kind:
